@@ -138,6 +138,21 @@ def real(what, fn, *args, **kw):
         return fn(*args, **kw)
     except (_Timeout, HarnessError):
         raise
+    except DeprecationWarning:
+        # only where the configuration pass turns warnings into errors: an entry point
+        # that announces its deprecation does so loudly, to its caller -- that is not a
+        # defect.  The call is repeated with that category silenced.  (A warning raised
+        # inside a *validation* is different: run_auth_scripts swallows it into False;
+        # validations are never made through this wrapper.)
+        import warnings
+        with warnings.catch_warnings():
+            warnings.simplefilter('ignore', DeprecationWarning)
+            try:
+                return fn(*args, **kw)
+            except (_Timeout, HarnessError):
+                raise
+            except LIB_ERRORS as e:
+                raise RealCodeRaised(what, e)
     except LIB_ERRORS as e:
         raise RealCodeRaised(what, e)
 
